@@ -564,6 +564,35 @@ impl St {
                     WK::A(w) => stdio_unit(rt::block_on(async { w.write_all(&data).await })),
                 })
             }
+            // A persistent caller: like write_all, but a failed `write` is tried again (at most three
+            // failures in all) with the bytes not yet acknowledged; `ok <failures>` or the last error.
+            "wwrite_p" => {
+                need(a, 2)?;
+                let id = parse_id(a[0], 'W')?;
+                let data = parse_bytes(a[1])?;
+                with_handle(&mut self.writers, &id, |h| {
+                    let mut rest: &[u8] = &data;
+                    let mut failures = 0usize;
+                    while !rest.is_empty() {
+                        let r = match &mut h.k {
+                            WK::S(w) => w.write(rest),
+                            #[cfg(any(feature = "rt-async-std", feature = "rt-tokio"))]
+                            WK::A(w) => rt::block_on(async { w.write(rest).await }),
+                        };
+                        match r {
+                            Ok(0) => return stdio_err(&std::io::Error::from(std::io::ErrorKind::WriteZero)),
+                            Ok(n) => rest = &rest[n.min(rest.len())..],
+                            Err(e) => {
+                                failures += 1;
+                                if failures > 3 {
+                                    return stdio_err(&e);
+                                }
+                            }
+                        }
+                    }
+                    format!("ok {failures}")
+                })
+            }
             "wwrite1" => {
                 need(a, 2)?;
                 let id = parse_id(a[0], 'W')?;
@@ -1245,10 +1274,74 @@ fn op_wdrop(h: WH) -> String {
 
 /// `DRIVE_MARK=1`: one `write(2, "@@<what> <i>\n")` (stderr is unbuffered, the text is
 /// formatted first, so this is a single system call).
+/// In worker mode the op thread hands everything it prints (results, markers) to the main thread
+/// and waits until it is written: the op thread then issues no `write` of its own, so a fault
+/// injected into "the N-th write of this thread" can only hit a write of the library.
+type Printer = (
+    std::sync::mpsc::SyncSender<(bool, String)>,
+    std::sync::Mutex<std::sync::mpsc::Receiver<bool>>,
+);
+static PRINTER: std::sync::OnceLock<Printer> = std::sync::OnceLock::new();
+
+/// Results and markers leave through `writev`, the ops arrive through `readv`: system calls the
+/// library never uses on its files, so the fault-injection legs (which fail "the N-th write / read
+/// of a thread") cannot hit the harness's own protocol traffic.
+fn emit_direct(to_stdout: bool, text: &str) -> bool {
+    use std::os::fd::FromRawFd;
+    let _ = std::io::stdout().flush();
+    let mut f = std::mem::ManuallyDrop::new(unsafe {
+        std::fs::File::from_raw_fd(if to_stdout { 1 } else { 2 })
+    });
+    let mut rest = text.as_bytes();
+    while !rest.is_empty() {
+        match f.write_vectored(&[std::io::IoSlice::new(rest)]) {
+            Ok(0) => return false,
+            Ok(n) => rest = &rest[n..],
+            Err(e) if e.kind() == std::io::ErrorKind::Interrupted => {}
+            Err(_) => return false,
+        }
+    }
+    true
+}
+
+/// All of stdin, read with `readv`.
+fn slurp_stdin() -> Vec<u8> {
+    use std::os::fd::FromRawFd;
+    let mut f = std::mem::ManuallyDrop::new(unsafe { std::fs::File::from_raw_fd(0) });
+    let mut all = Vec::new();
+    let mut buf = vec![0u8; 1 << 16];
+    loop {
+        match f.read_vectored(&mut [std::io::IoSliceMut::new(&mut buf)]) {
+            Ok(0) => break,
+            Ok(n) => all.extend_from_slice(&buf[..n]),
+            Err(e) if e.kind() == std::io::ErrorKind::Interrupted => {}
+            Err(e) => {
+                eprintln!("drive: error reading stdin: {e}");
+                break;
+            }
+        }
+    }
+    all
+}
+
+fn emit(to_stdout: bool, text: String) -> bool {
+    match PRINTER.get() {
+        Some((tx, ack)) => {
+            if tx.send((to_stdout, text)).is_err() {
+                return false;
+            }
+            ack.lock()
+                .unwrap_or_else(|e| e.into_inner())
+                .recv()
+                .unwrap_or(false)
+        }
+        None => emit_direct(to_stdout, &text),
+    }
+}
+
 fn marker(enabled: bool, what: &str, i: u64) {
     if enabled {
-        let text = format!("@@{what} {i}\n");
-        let _ = std::io::stderr().write_all(text.as_bytes());
+        let _ = emit(false, format!("@@{what} {i}\n"));
     }
 }
 
@@ -1326,12 +1419,20 @@ fn main() {
     // (strace's `when=N`) start at zero for the operations and the process start-up is not counted.
     let worker = std::env::var_os("DRIVE_WORKER").is_some_and(|v| v == "1");
     if worker {
+        let ops = slurp_stdin();
+        let (tx, rx) = std::sync::mpsc::sync_channel::<(bool, String)>(0);
+        let (ack_tx, ack_rx) = std::sync::mpsc::channel::<bool>();
+        let _ = PRINTER.set((tx, std::sync::Mutex::new(ack_rx)));
         let h = std::thread::Builder::new()
             .name("drive-ops".into())
             .stack_size(64 << 20)
-            .spawn(move || op_loop(scratch_str, mark));
+            .spawn(move || op_loop(scratch_str, mark, Box::new(std::io::Cursor::new(ops))));
         match h {
             Ok(h) => {
+                // The op thread ends the process itself; until then print what it sends.
+                while let Ok((to_stdout, text)) = rx.recv() {
+                    let _ = ack_tx.send(emit_direct(to_stdout, &text));
+                }
                 let _ = h.join();
             }
             Err(e) => {
@@ -1341,7 +1442,7 @@ fn main() {
         }
         std::process::exit(0);
     }
-    op_loop(scratch_str, mark)
+    op_loop(scratch_str, mark, Box::new(std::io::stdin().lock()))
 }
 
 /// Temp files of every cache directory (`c<digits>`) below the scratch directory.
@@ -1374,7 +1475,7 @@ fn quiesce(before: &BTreeSet<String>) {
     }
 }
 
-fn op_loop(scratch_str: String, mark: bool) {
+fn op_loop(scratch_str: String, mark: bool, mut input: Box<dyn std::io::BufRead>) {
     let tmp_before = all_tmp_files();
     let mut st = St {
         scratch: scratch_str,
@@ -1383,9 +1484,6 @@ fn op_loop(scratch_str: String, mark: bool) {
         linkers: HashMap::new(),
     };
 
-    let stdin = std::io::stdin();
-    let mut input = stdin.lock();
-    let stdout = std::io::stdout();
     let mut raw = Vec::new();
     // Number of ops executed so far (comments / blank lines are not counted).
     let mut op_index: u64 = 0;
@@ -1421,12 +1519,10 @@ fn op_loop(scratch_str: String, mark: bool) {
                 r
             }
         };
-        let mut o = stdout.lock();
-        if writeln!(o, "{result}").and_then(|_| o.flush()).is_err() {
+        if !emit(true, format!("{result}\n")) {
             // Nobody is listening any more.
             std::process::exit(1);
         }
-        drop(o);
         marker(mark, "END", op_index);
         op_index += 1;
     }
